@@ -194,6 +194,10 @@ impl Rt for Iphc {
 }
 
 // ------------------------------------------------------------------- NHC extension header
+/// `buffer_len()` is the compressed header alone; the `length` bytes of extension header
+/// content it announces follow it and belong to the caller (the interface writes them).
+/// Declared length = `buffer_len()` + `length`, content pattern written by the harness
+/// (the packet view's `check_len` may insist on the announced bytes being there).
 pub struct NhcExt;
 impl Rt for NhcExt {
     const NAME: &'static str = "SixlowpanExtHeaderRepr";
@@ -226,10 +230,13 @@ impl Rt for NhcExt {
         v
     }
     fn blen(r: &SixlowpanExtHeaderRepr, _: &()) -> usize {
-        r.buffer_len()
+        r.buffer_len() + r.length as usize
     }
     fn emit(r: &SixlowpanExtHeaderRepr, _: &(), buf: &mut [u8]) {
-        r.emit(&mut SixlowpanExtHeaderPacket::new_unchecked(buf));
+        let mut p = SixlowpanExtHeaderPacket::new_unchecked(&mut *buf);
+        r.emit(&mut p);
+        let n = p.payload_mut().len();
+        p.payload_mut().copy_from_slice(pat(n));
     }
     fn parse(b: &[u8], _: &(), _s: bool, k: &mut dyn FnMut(Option<&SixlowpanExtHeaderRepr>)) {
         let r = SixlowpanExtHeaderPacket::new_checked(b).ok().and_then(|p| SixlowpanExtHeaderRepr::parse(&p).ok());
@@ -239,7 +246,7 @@ impl Rt for NhcExt {
         a == b
     }
     fn domain_doc() -> &'static str {
-        "ext_header_id (all 7) x next_header {Compressed, Icmpv6, Udp, Unknown(0xfe)} x length {0,1,64,255}; header only (the Repr does not own the header's payload)"
+        "ext_header_id (all 7) x next_header {Compressed, Icmpv6, Udp, Unknown(0xfe)} x length {0,1,64,255}; buffer = header + the `length` content bytes it announces (pattern written by the harness)"
     }
 }
 
